@@ -377,6 +377,30 @@ func init() {
 				e.samples = append(e.samples, sample{now(), "idle-after-expiry", idle, min})
 			}
 			e.sampleCounts()
+			if c < cycles-1 && r.Intn(3) == 0 {
+				// Restart under load: every slot busy and a backlog behind; the pool of the next run
+				// is no larger than the limit
+				e.params["loadedRestarts"]++
+				conc := e.w.NumConcurrency()
+				for i := 0; i < 2*conc; i++ {
+					e.add(q, 0, oOK, true, "")
+				}
+				vt.WaitIdle()
+				var jn joiner
+				jn.goClient("restarter", func() { e.lifecycle("Restart", 0) })
+				jn.goClient("opener", func() {
+					for k := r.Intn(6); k > 0; k-- {
+						vt.Yield()
+					}
+					e.openGates()
+				})
+				jn.wait()
+				e.openGates()
+				e.lifecycle("WaitUntilFinished", 0)
+				vt.WaitIdle()
+				e.sampleCounts()
+				continue
+			}
 			if c < cycles-1 {
 				if r.Intn(2) == 0 {
 					e.lifecycle("Stop", 0)
